@@ -23,6 +23,7 @@ import (
 	"sort"
 	"strings"
 	"sync"
+	"time"
 
 	"github.com/aptpod/iscp-go/internal/vh/c11/gen"
 	"github.com/aptpod/iscp-go/internal/vh/lib"
@@ -157,19 +158,22 @@ func (c *child) run(sh shard) outcome {
 
 // runner executes shards on children and folds the results into the Explore.
 type runner struct {
-	e       *vlib.Explore
-	mu      sync.Mutex
-	decoded int64
-	gates   int64
-	types   map[string]int64
-	deaths  int
-	hangs   int
-	slow    int
-	shards  int
-	engErr  string
-	perFam  map[string]int64
-	seen    []string
-	viols   map[string]*vrec
+	e        *vlib.Explore
+	mu       sync.Mutex
+	decoded  int64
+	gates    int64
+	types    map[string]int64
+	deaths   int
+	hangs    int
+	slow     int
+	shards   int
+	engErr   string
+	perFam   map[string]int64
+	seen     []string
+	viols    map[string]*vrec
+	t0       time.Time
+	deadline time.Duration
+	skipped  map[string]int
 }
 
 func (r *runner) fold(sh shard, rep *reply) {
@@ -294,7 +298,7 @@ func (r *runner) resume(c **child, sh *shard, bad int) bool {
 }
 
 func (r *runner) runAll(shards []shard, nw int) {
-	ch := make(chan shard, 64)
+	ch := make(chan shard)
 	var wg sync.WaitGroup
 	for k := 0; k < nw; k++ {
 		wg.Add(1)
@@ -307,12 +311,55 @@ func (r *runner) runAll(shards []shard, nw int) {
 			c.stop()
 		}()
 	}
-	for _, sh := range shards {
+	for i, sh := range shards {
+		if time.Since(r.t0) > r.deadline {
+			// out of time (busy machine): the remaining shards are not evaluated; the evidence says so
+			for _, rest := range shards[i:] {
+				r.skipped[rest.family()]++
+			}
+			shards = shards[:i]
+			break
+		}
 		ch <- sh
 	}
 	close(ch)
 	wg.Wait()
 	r.shards += len(shards)
+}
+
+// substCount is the number of substitution mutants of an encoding.
+func substCount(b []byte, alpha int) int {
+	if alpha == 256 {
+		return len(b) * 255
+	}
+	n := 0
+	for _, x := range b {
+		n += len(alphabet24)
+		for _, a := range alphabet24 {
+			if a == x {
+				n--
+			}
+		}
+	}
+	return n
+}
+
+// class orders the shards: when the internal deadline cuts the run short on a busy machine, the
+// families that are lost are the bulkiest and most redundant ones.
+func class(s shard) int {
+	switch {
+	case s.Kind == "short" || s.Kind == "single":
+		return 0
+	case (s.Kind == "pbtree" || s.Kind == "jtree") && !s.Pairs:
+		return 0
+	case s.Kind == "bytes" && s.Op != "subst":
+		return 1
+	case s.Kind == "bytes" && s.Enc == "protobuf":
+		return 2
+	case s.Pairs:
+		return 3
+	}
+	return 4
 }
 
 func main() {
@@ -322,7 +369,10 @@ func main() {
 		return
 	}
 	e := vlib.StartExplore("C12")
-	r := &runner{e: e, types: map[string]int64{}, perFam: map[string]int64{}, viols: map[string]*vrec{}}
+	r := &runner{e: e, types: map[string]int64{}, perFam: map[string]int64{}, viols: map[string]*vrec{}, t0: time.Now(), deadline: 50 * time.Second, skipped: map[string]int{}}
+	if e.Thorough() {
+		r.deadline = 540 * time.Second
+	}
 	nw := runtime.NumCPU()
 	if nw > 16 {
 		nw = 16
@@ -416,7 +466,18 @@ func main() {
 			bytesB[enc] += len(b)
 			label := en.Msg + "{" + en.Var + "}"
 			for _, op := range byteOps() {
-				shards = append(shards, shard{Kind: "bytes", Enc: enc, Entry: label, Base: hex.EncodeToString(b), Op: op, Alpha: alpha})
+				sh := shard{Kind: "bytes", Enc: enc, Entry: label, Base: hex.EncodeToString(b), Op: op, Alpha: alpha}
+				if op != "subst" {
+					shards = append(shards, sh)
+					continue
+				}
+				// windows of at most chunk cases (a shard is the unit the deadline can skip)
+				const chunk = 10000
+				for n, lo := substCount(b, alpha), 0; lo < n; lo += chunk {
+					w := sh
+					w.Start, w.Limit = lo, chunk
+					shards = append(shards, w)
+				}
 			}
 			// the valid encoding itself (self-consistency and size gate of the unmutated input)
 			shards = append(shards, shard{Kind: "single", Enc: enc, Entry: label, Base: hex.EncodeToString(b), Gate: true})
@@ -455,11 +516,11 @@ func main() {
 			}
 		}
 	}
-	// big shards first (better packing); pairs last, so that the case recorded for a signature is a
-	// single mutation whenever one exists
+	// cheap and structurally rich families first, the bulky substitution family of the slow JSON
+	// decoder last; within a class big shards first (better packing)
 	sort.SliceStable(shards, func(i, j int) bool {
-		if shards[i].Pairs != shards[j].Pairs {
-			return !shards[i].Pairs
+		if ci, cj := class(shards[i]), class(shards[j]); ci != cj {
+			return ci < cj
 		}
 		return weight(shards[i]) > weight(shards[j])
 	})
@@ -494,7 +555,16 @@ func main() {
 		"child_deaths":                     r.deaths,
 		"child_processes":                  nw,
 	}
-	e.Finish(rule, true, extra, []string{
+	skippedTotal := 0
+	for _, n := range r.skipped {
+		skippedTotal += n
+	}
+	if skippedTotal > 0 {
+		extra["shards_not_evaluated_internal_deadline"] = r.skipped
+		extra["internal_deadline_s"] = r.deadline.Seconds()
+		fmt.Fprintf(os.Stderr, "[C12] internal deadline %v reached: %d shards not evaluated (%v)\n", r.deadline, skippedTotal, r.skipped)
+	}
+	e.Finish(rule, skippedTotal == 0, extra, []string{
 		"decides the property for the enumerated neighbourhoods of valid encodings and for all short strings, not for all byte strings",
 		"the corpus is the C11 one-at-a-time grid as encoded by the library itself (protobuf map entries ordered by key to make the corpus deterministic)",
 		"a call into the codec that takes more than 10 s, and more than 60 s when the input is re-run alone in a fresh process, is a hang",
